@@ -1343,3 +1343,64 @@ def erase_then_step(prog, chk, rid, funcs, floor=0):
             else:
                 chk.ok(rid, f, "`%s = remove(%s)` is not followed by a step in the same iteration" % (vn, vn), f.where(st.node), "path search to the loop head", evals=len(steps) + 1)
     return n
+
+
+# ----------------------------------------------------------------------------- counting against a moving bound
+
+def counting_against_moving_bound(prog, chk, rid, classes):
+    """`for(i = a; i < _size; ++i) removeBack();` removes half of what it means to: the bound moves towards the counter while the
+    counter moves towards the bound.  A loop that steps a counter and compares it with a member its own body changes (directly or
+    through a member function that does) runs a number of times nobody wrote down."""
+    chk.rule(rid, "CNT: no loop of a container member both steps a local counter and tests it against a size member that the loop body "
+                  "changes (by a store or through a called member that stores to it)", floor=0)
+    # members that (transitively) store to a size-like field, per class instantiation
+    n_loops = 0
+    for cls in classes:
+        for tn, fs in sorted(class_insts(prog, cls).items()):
+            by_sig = {f.sig: f for f in fs if f.blocks}
+            writes = {}
+            for f in by_sig.values():
+                for s_ in q.stores(f):
+                    l = f.nodes[s_.lhs]
+                    if l["k"] == "MemberExpr" and l["c"] and f.nodes[f.strip(l["c"][0])]["k"] == "CXXThisExpr" and re.search(r"size|count|len", l.get("m") or "", re.I):
+                        writes.setdefault(f.sig, set()).add(l["m"])
+            for _r in range(4):
+                for f in by_sig.values():
+                    for c in q.calls(f):
+                        cs = f.nodes[c].get("csig")
+                        if cs in writes and cs != f.sig:
+                            o = q.call_object(f, c)
+                            if f.nodes[c]["k"] == "CXXMemberCallExpr" and (o is None or f.nodes[f.strip(o)]["k"] == "CXXThisExpr"):
+                                writes.setdefault(f.sig, set()).update(writes[cs])
+            for f in by_sig.values():
+                for b in f.blocks.values():
+                    c = b.get("cond")
+                    if c is None or len(b["succ"]) != 2 or b.get("tk") not in ("ForStmt", "WhileStmt", "DoStmt"):
+                        continue
+                    members = set(f.nodes[x]["m"] for x in [f.strip(c)] + list(f.desc(c)) if f.nodes[x]["k"] == "MemberExpr" and f.nodes[x]["c"] and
+                                  f.nodes[f.strip(f.nodes[x]["c"][0])]["k"] == "CXXThisExpr" and re.search(r"size|count|len", f.nodes[x].get("m") or "", re.I))
+                    locs = set(f.nodes[x]["ref"]["id"] for x in [f.strip(c)] + list(f.desc(c)) if f.nodes[x]["k"] == "DeclRefExpr" and f.nodes[x]["ref"].get("dk") == "local")
+                    if not members or not locs:
+                        continue
+                    lb = loop_blocks(f, f.strip(c)) or set()
+                    if not lb:
+                        continue
+                    n_loops += 1
+                    stepped = [s_ for s_ in q.stores(f) if s_.op in ("++", "--", "+=", "-=") and f.nodes[f.strip(s_.lhs)]["k"] == "DeclRefExpr" and
+                               f.nodes[f.strip(s_.lhs)]["ref"].get("id") in locs and (f.node_pos(s_.node) or (None,))[0] in lb]
+                    moved = []
+                    for s_ in q.stores(f):
+                        l = f.nodes[s_.lhs]
+                        if l["k"] == "MemberExpr" and l.get("m") in members and (f.node_pos(s_.node) or (None,))[0] in lb:
+                            moved.append(q.no_casts(f.r(s_.node))[:40])
+                    for cc in q.calls(f):
+                        if (f.node_pos(cc) or (None,))[0] in lb and writes.get(f.nodes[cc].get("csig"), set()) & members:
+                            o = q.call_object(f, cc)
+                            if f.nodes[cc]["k"] == "CXXMemberCallExpr" and (o is None or f.nodes[f.strip(o)]["k"] == "CXXThisExpr"):
+                                moved.append(q.no_casts(f.r(cc))[:40])
+                    if stepped and moved:
+                        chk.bad(rid, f, "counting-against-moving-bound:" + sorted(members)[0], f.where(f.strip(c)),
+                                "the loop steps `%s` and tests it against `%s`, which `%s` changes in the same loop: counter and bound move towards "
+                                "each other, the body runs about half as often as the difference says (`[1,2,3,4,5] = [10,20]` keeps three "
+                                "elements)" % (q.no_casts(f.r(stepped[0].node))[:20], sorted(members)[0], moved[0]), evals=2)
+    chk.ok(rid, "loops", "%d loops that test a counter against a size member: none changes that member in its body" % n_loops, "", "store / callee-effect scan", nontrivial=n_loops > 0)
